@@ -148,14 +148,6 @@ func strTruncateFunc(_ *ctx.EvalCtx, receiver object.Object, args ...object.Obje
 		return nil, errors.New(msg)
 	}
 
-	val := receiver.(*object.Str).Value
-	chars := []rune(val)
-	limit := max(int(firstArg.Value), 0)
-
-	if limit >= len(chars) {
-		return &object.Str{Value: val}, nil
-	}
-
 	ellipsis := "..."
 
 	if len(args) > 1 {
@@ -167,6 +159,14 @@ func strTruncateFunc(_ *ctx.EvalCtx, receiver object.Object, args ...object.Obje
 			msg := fmt.Sprintf(fail.ErrFuncSecondArgStr, "truncate", object.STR_OBJ)
 			return nil, errors.New(msg)
 		}
+	}
+
+	val := receiver.(*object.Str).Value
+	chars := []rune(val)
+	limit := max(int(firstArg.Value), 0)
+
+	if limit >= len(chars) {
+		return &object.Str{Value: val}, nil
 	}
 
 	newVal := string(chars[:limit]) + ellipsis
